@@ -175,7 +175,23 @@ def r142(ctx):
     for n in walk_local(lp):
         if isinstance(n, ast.Subscript) and isinstance(n.slice, ast.Tuple) and len(n.slice.elts) == 2 and isinstance(n.slice.elts[1], ast.Slice):
             lo = n.slice.elts[1].lower
-            if lo is not None and ".load()" in ast.unparse(n):
+            # the sliced object comes from <order file>.load(): look through temporaries
+            base = n.value
+            txt = ast.unparse(base)
+            lfl = flow_of(lp)
+            depth = 0
+            while ".load()" not in txt and depth < 4:
+                b2 = base
+                while isinstance(b2, (ast.Subscript, ast.Attribute)):
+                    b2 = b2.value
+                if not isinstance(b2, ast.Name):
+                    break
+                e2, _ = deref(lfl, b2, lfl.cfg.node_of(n))
+                if e2 is b2:
+                    break
+                base, txt = e2, ast.unparse(e2)
+                depth += 1
+            if lo is not None and ".load()" in txt and "rder" in txt:
                 drop = ast.literal_eval(lo)
                 site = n
     if lead == 1 and drop == 1:
